@@ -8,6 +8,14 @@ SEQ_NOTE = ("Trusted base: go/ssa lowering (x/tools v0.50.0), this repository's 
             "and the models/stubs listed in the evidence file. Claims hold within the stated bounds only.")
 
 checks = {
+ "C14": dict(level="other",
+   text="Bounded symbolic execution of trait/seq: every expression tree over the eight combinators up to depth 2 (quick) / 3 (thorough) with 0..2-element leaves is built from the real constructors and drained by the documented loop and by ForEach (failing at every position); element values and all predicate / mapping / flat-map behaviours are solver variables (uninterpreted functions), the result is compared with a reference list evaluator; source slices compared before/after.",
+   technique="symbolic execution of go/ssa with forked expression shapes + SMT (QF_UFBV)",
+   ref="DESIGN.md §5 C14"),
+ "C15": dict(level="other",
+   text="As C14 for trait/pair: trees over From/FromSeq/TakeWhile/DropWhile/Filter/Map/Plus/Join to depth 2 (3 thorough), ForEach and ToSeq one level shallower, FromSeq over 0..3 plain elements; keys and values independent symbols, binary uninterpreted predicates/mappings/selectors; reference is a list of pairs, Key() and Value() read at each position.",
+   technique="symbolic execution of go/ssa with forked expression shapes + SMT (QF_UFBV)",
+   ref="DESIGN.md §5 C15"),
  "C17": dict(level="other",
    text="Bounded symbolic execution of pure/eq, pure/ord, pure/monoid, pure/semigroup: the Eq/Ord laws and the transparency of ContraMap/From/monoid constructors are SMT queries over all 64-bit ints, all byte strings up to the length bound (2 quick / 3 thorough) and uninterpreted base functions. Bounded (string length), not a proof.",
    technique="symbolic execution of go/ssa + SMT (QF_UFBV), symbolic bounded strings",
